@@ -81,15 +81,17 @@ class Globals:
 
 
 def strict_docs(text):
-    """split a log file into documents: each one decodes, is followed by exactly one newline"""
+    """split a log file into documents (reference splitter, independent of logparser): each
+    one decodes; documents are separated by white space only"""
     dec = json.JSONDecoder()
     pos, out = 0, []
     while pos < len(text):
+        if text[pos].isspace():
+            pos += 1
+            continue
         obj, end = dec.raw_decode(text, pos)
-        if text[end:end + 1] != "\n":
-            raise ValueError("document not followed by a newline")
-        out.append((obj, text[pos:end]))
-        pos = end + 1
+        out.append((obj, text[pos:end], pos))
+        pos = end
     return out
 
 
@@ -170,7 +172,7 @@ def run_ev(toks) -> str:
             if not ev.closed:
                 ev.close()
     try:
-        docs = sep_by(",", (doc_wire(o) for o, _ in strict_docs(text)))
+        docs = sep_by(",", (doc_wire(o) for o, _, _ in strict_docs(text)))
     except ValueError as e:
         docs = "bad-file/" + type(e).__name__
     return " ".join([hx(hdr), hx(stored), docs] + steps)
@@ -220,7 +222,7 @@ def base_len(ident: int) -> int:
     key = len(str(ident))
     if key not in _BASE:
         text, _ = write_file([(ident, "")], None)
-        _BASE[key] = len(text) - 1
+        _BASE[key] = len(strict_docs(text)[0][1])
     return _BASE[key]
 
 
@@ -301,24 +303,23 @@ class _TraceFile:
         return getattr(self.f, name)
 
 
-def check_decoder_spec(text, lens, n, rng):
+def check_decoder_spec(text, n, rng):
     """the hypotheses of `Log.DecoderSpec`, on the documents of this file, against CPython's json"""
     dec = json.JSONDecoder()
-    pos = 0
-    if sum(lens) + len(lens) != len(text):
-        return "length"
     try:
         dec.raw_decode("")
         return "nil"
     except json.JSONDecodeError:
         pass
-    for ln in lens:
-        doc, sep, rest = text[pos:pos + ln], text[pos + ln:pos + ln + 1], text[pos + ln:]
-        if sep != "\n" or not sep.isspace():
-            return "sep"
+    try:
+        docs = strict_docs(text)
+    except ValueError:
+        return "file"
+    for want, doc, pos in docs:
+        ln = len(doc)
+        rest = text[pos + ln:]
         if doc[:1].isspace() or doc.lstrip() != doc:
             return "head"
-        want = json.loads(doc)
         for tail in ("", rest[:1], rest[:rng.randrange(0, 40)], rest):
             try:
                 if dec.raw_decode(doc + tail) != (want, ln):
@@ -326,7 +327,10 @@ def check_decoder_spec(text, lens, n, rng):
             except json.JSONDecodeError:
                 return "complete"
         ks = {0, 1, 2, ln - 1, ln - 2, ln - 3, ln // 2}
-        ks |= {k - pos for k in range(0, pos + ln, max(n, 1)) if 0 <= k - pos < ln and len(ks) < 40}
+        for k in range(-(-pos // max(n, 1)) * max(n, 1), pos + ln, max(n, 1)):
+            if len(ks) >= 40:
+                break
+            ks.add(k - pos)
         ks |= {rng.randrange(0, ln) for _ in range(6)}
         for k in ks:
             if 0 <= k < ln:
@@ -335,7 +339,6 @@ def check_decoder_spec(text, lens, n, rng):
                     return "prefix"
                 except json.JSONDecodeError:
                     pass
-        pos += ln + 1
     return None
 
 
@@ -345,10 +348,15 @@ def run_pf(toks, line) -> str:
     for t in toks[1:]:
         f = t.split("/")
         specs.append((int(f[0]), int(f[1]), f[2] if len(f) > 2 else "a", f[3] if len(f) > 3 else "0"))
-    events = [(i, build_payload(i, ln, fl, sd)) for i, ln, fl, sd in specs]
+    try:
+        events = [(i, build_payload(i, ln, fl, sd)) for i, ln, fl, sd in specs]
+    except ValueError:
+        return "bad-case/document-length-below-minimum"
+    if len({i for i, _ in events}) != len(events):
+        return "bad-case/duplicate-event-id"
     path = os.path.join(_TMP, "log.json")
     text, _ = write_file(events, path)
-    bad = check_decoder_spec(text, [ln for _, ln, _, _ in specs], n, random.Random(line))
+    bad = check_decoder_spec(text, n, random.Random(line))
     if bad is not None:
         return "assume-failed/" + bad
     by_id = dict(events)
